@@ -1,5 +1,10 @@
 import Model.Types
 import Check.Grey
+import Props.C01
+import Props.C06.P_false_to
+import Props.C06.P_false_from
+import Props.C06.P_true_to
+import Props.C06.P_true_from
 /-! C06 — primaries conversion: exact clause (identical source and target primaries leave the data bit-exactly unchanged,
 for every image) and evaluated checks on the 22 conversion matrices of the model (white maps to white within 1e-5,
 there-and-back matrix product within 1e-5 of the identity on the unit white vector). The accuracy clause against the
@@ -27,5 +32,138 @@ def whiteOk (fm : Bool) (p : CP) : Bool :=
 
 theorem white_to_white : ∀ fm : Bool, ∀ p ∈ prims11, whiteOk fm p = true := by
   intro fm; cases fm <;> native_decide
+
+
+/-! ### accuracy against the exact CIE derivation, for every pixel of [-2, 2]^3 -/
+open F32 CheckDecode CheckPrim Real C01
+
+theorem entry_factsP (a : Nat) (q : Q) (h : entryOkP 12 10000000 a q = true) :
+    Finite a ∧ |toReal a - qR q| ≤ 12 / 10000000 := by
+  unfold entryOkP at h
+  simp only [Bool.and_eq_true, decide_eq_true_eq] at h
+  obtain ⟨⟨h1, h2⟩, _⟩ := h
+  obtain ⟨hf, hv⟩ := ratDiffLe_sound a q.num q.den 12 10000000 h2 (by norm_num) h1
+  exact ⟨hf, by unfold qR; simpa using hv⟩
+
+theorem den_of_entry (a : Nat) (q : Q) (h : entryOkP 12 10000000 a q = true) : 0 < q.den := by
+  unfold entryOkP at h; simp only [Bool.and_eq_true, decide_eq_true_eq] at h; exact h.1.2
+
+theorem absSum_facts (q : QV) (ha : 0 < q.x.den) (hb : 0 < q.y.den) (hc : 0 < q.z.den) (h : absSumOk q = true) :
+    |qR q.x| + |qR q.y| + |qR q.z| ≤ 27 / 5 := by
+  unfold absSumOk at h
+  have h' := of_decide_eq_true h
+  have hr : ((5 * (q.x.num.natAbs * q.y.den * q.z.den + q.y.num.natAbs * q.x.den * q.z.den + q.z.num.natAbs * q.x.den * q.y.den) : ℕ) : ℝ)
+      ≤ ((27 * (q.x.den * q.y.den * q.z.den) : ℕ) : ℝ) := by exact_mod_cast h'
+  push_cast at hr
+  rw [natAbs_cast, natAbs_cast, natAbs_cast] at hr
+  have a0 : (0:ℝ) < q.x.den := by exact_mod_cast ha
+  have b0 : (0:ℝ) < q.y.den := by exact_mod_cast hb
+  have c0 : (0:ℝ) < q.z.den := by exact_mod_cast hc
+  unfold qR
+  rw [abs_div, abs_div, abs_div, abs_of_pos a0, abs_of_pos b0, abs_of_pos c0]
+  rw [div_add_div _ _ (ne_of_gt a0) (ne_of_gt b0), div_add_div _ _ (ne_of_gt (mul_pos a0 b0)) (ne_of_gt c0), div_le_iff₀ (mul_pos (mul_pos a0 b0) c0)]
+  nlinarith
+
+theorem rowSum_facts (q : QV) (ha : 0 < q.x.den) (hb : 0 < q.y.den) (hc : 0 < q.z.den) (h : rowSumOne q = true) :
+    qR q.x + qR q.y + qR q.z = 1 := by
+  unfold rowSumOne at h
+  simp only [Bool.and_eq_true, decide_eq_true_eq] at h
+  have a0 : (q.x.den:ℝ) ≠ 0 := by exact_mod_cast (Nat.pos_iff_ne_zero.mp ha)
+  have b0 : (q.y.den:ℝ) ≠ 0 := by exact_mod_cast (Nat.pos_iff_ne_zero.mp hb)
+  have c0 : (q.z.den:ℝ) ≠ 0 := by exact_mod_cast (Nat.pos_iff_ne_zero.mp hc)
+  have hn := congrArg (fun z : ℤ => (z:ℝ)) h.1
+  simp only [Q.add] at hn
+  push_cast at hn
+  unfold qR
+  field_simp
+  linarith
+
+/-- one row of a checked conversion matrix applied to a finite pixel of [-2,2]^3 -/
+theorem row_prim (fm : Bool) (r : V3) (q : QV) (p : V3) (h1 : entryOkP 12 10000000 r.x q.x = true) (h2 : entryOkP 12 10000000 r.y q.y = true)
+    (h3 : entryOkP 12 10000000 r.z q.z = true) (hs : absSumOk q = true)
+    (hx : Bnd p.x 2) (hy : Bnd p.y 2) (hz : Bnd p.z 2) :
+    Finite (rowDot fm r p) ∧ |toReal (rowDot fm r p) - (qR q.x * toReal p.x + (qR q.y * toReal p.y + qR q.z * toReal p.z))| ≤ 1 / 100000 := by
+  obtain ⟨fa, ea⟩ := entry_factsP r.x q.x h1
+  obtain ⟨fb, eb⟩ := entry_factsP r.y q.y h2
+  obtain ⟨fc, ec⟩ := entry_factsP r.z q.z h3
+  have hsum := absSum_facts q (den_of_entry _ _ h1) (den_of_entry _ _ h2) (den_of_entry _ _ h3) hs
+  set A := |qR q.x| + 12 / 10000000 with hA
+  set B := |qR q.y| + 12 / 10000000 with hB
+  set Cc := |qR q.z| + 12 / 10000000 with hC
+  have bA : Bnd r.x A := ⟨fa, by have := abs_sub_abs_le_abs_sub (toReal r.x) (qR q.x); linarith⟩
+  have bB : Bnd r.y B := ⟨fb, by have := abs_sub_abs_le_abs_sub (toReal r.y) (qR q.y); linarith⟩
+  have bC : Bnd r.z Cc := ⟨fc, by have := abs_sub_abs_le_abs_sub (toReal r.z) (qR q.z); linarith⟩
+  have hA0 : 0 ≤ A := by positivity
+  have hB0 : 0 ≤ B := by positivity
+  have hC0 : 0 ≤ Cc := by positivity
+  have hqa0 := abs_nonneg (qR q.x); have hqb0 := abs_nonneg (qR q.y); have hqc0 := abs_nonneg (qR q.z)
+  have hABC : A + B + Cc ≤ 27 / 5 + 36 / 10000000 := by linarith
+  have hsm : A * 2 ≤ 1000 ∧ B * 2 ≤ 1000 ∧ Cc * 2 ≤ 1000 := by refine ⟨?_, ?_, ?_⟩ <;> nlinarith
+  have hspec : |(toReal r.x * toReal p.x + (toReal r.y * toReal p.y + toReal r.z * toReal p.z)) -
+      (qR q.x * toReal p.x + (qR q.y * toReal p.y + qR q.z * toReal p.z))| ≤ 72 / 10000000 := by
+    have : (toReal r.x * toReal p.x + (toReal r.y * toReal p.y + toReal r.z * toReal p.z)) -
+        (qR q.x * toReal p.x + (qR q.y * toReal p.y + qR q.z * toReal p.z)) =
+        (toReal r.x - qR q.x) * toReal p.x + ((toReal r.y - qR q.y) * toReal p.y + (toReal r.z - qR q.z) * toReal p.z) := by ring
+    rw [this]
+    have t1 : |(toReal r.x - qR q.x) * toReal p.x| ≤ 12 / 10000000 * 2 := by rw [abs_mul]; exact mul_le_mul ea hx.2 (abs_nonneg _) (by norm_num)
+    have t2 : |(toReal r.y - qR q.y) * toReal p.y| ≤ 12 / 10000000 * 2 := by rw [abs_mul]; exact mul_le_mul eb hy.2 (abs_nonneg _) (by norm_num)
+    have t3 : |(toReal r.z - qR q.z) * toReal p.z| ≤ 12 / 10000000 * 2 := by rw [abs_mul]; exact mul_le_mul ec hz.2 (abs_nonneg _) (by norm_num)
+    have := abs_add_le ((toReal r.x - qR q.x) * toReal p.x) ((toReal r.y - qR q.y) * toReal p.y + (toReal r.z - qR q.z) * toReal p.z)
+    have := abs_add_le ((toReal r.y - qR q.y) * toReal p.y) ((toReal r.z - qR q.z) * toReal p.z)
+    linarith
+  have hu1 : u = 1 / 16777216 := u_val
+  have he1 := eta_le
+  have he0 := eta_pos
+  cases fm
+  · obtain ⟨b5, e5⟩ := dot3_nofma r.x p.x r.y p.y r.z p.z A 2 B 2 Cc 2 bA hx bB hy bC hz hsm
+    have hE : E5 A 2 B 2 Cc 2 ≤ 27 / 10000000 := by
+      unfold E5 T3 T1; rw [hu1]; nlinarith [he1, he0]
+    refine ⟨b5.1, ?_⟩
+    show |toReal (F32.add (F32.mul r.x p.x) (F32.add (F32.mul r.y p.y) (F32.mul r.z p.z))) - _| ≤ _
+    rw [abs_le] at e5 hspec ⊢
+    constructor <;> linarith [e5.1, e5.2, hspec.1, hspec.2]
+  · obtain ⟨b3, e3⟩ := dot3_fma r.x p.x r.y p.y r.z p.z A 2 B 2 Cc 2 bA hx bB hy bC hz hsm
+    have hE : EF A 2 B 2 Cc 2 ≤ 27 / 10000000 := by
+      unfold EF F2 T1; rw [hu1]; nlinarith [he1, he0]
+    refine ⟨b3.1, ?_⟩
+    show |toReal (F32.fma r.x p.x (F32.fma r.y p.y (F32.mul r.z p.z))) - _| ≤ _
+    rw [abs_le] at e3 hspec ⊢
+    constructor <;> linarith [e3.1, e3.2, hspec.1, hspec.2]
+
+theorem prim_all (fm : Bool) (p : CP) (hp : p ∈ prims10) : primOk fm p .BT709 = true ∧ primOk fm .BT709 p = true := by
+  cases fm
+  · exact ⟨prim_false_to p hp, prim_false_from p hp⟩
+  · exact ⟨prim_true_to p hp, prim_true_from p hp⟩
+
+/-- **C06 accuracy**: for each of the 10 supported non-709 primaries, either direction, both FMA modes and EVERY finite pixel with
+components of magnitude at most 2 (in particular [-1/2, 2]^3): each output component is within 1e-5 of the exact
+`M_out^-1 * Bradford * M_in` (rational arithmetic from the H.273 chromaticities) applied to the pixel; the exact matrix has
+row sums 1, so white maps to white and greys to greys. -/
+theorem prim_close (fm : Bool) (p : CP) (hp : p ∈ prims10) (to709 : Bool) (px : V3) (hx : Bnd px.x 2) (hy : Bnd px.y 2) (hz : Bnd px.z 2) :
+    ∃ t s, primariesMatrix fm (if to709 then p else .BT709) (if to709 then .BT709 else p) = .ok (some t) ∧
+      primSpec (if to709 then p else .BT709) (if to709 then .BT709 else p) = some s ∧
+      (let o := M3.mulArr fm t px
+       let d (q : QV) : ℝ := qR q.x * toReal px.x + (qR q.y * toReal px.y + qR q.z * toReal px.z)
+       (Finite o.x ∧ |toReal o.x - d s.r1| ≤ 1 / 100000) ∧ (Finite o.y ∧ |toReal o.y - d s.r2| ≤ 1 / 100000) ∧
+       (Finite o.z ∧ |toReal o.z - d s.r3| ≤ 1 / 100000)) ∧
+      (qR s.r1.x + qR s.r1.y + qR s.r1.z = 1 ∧ qR s.r2.x + qR s.r2.y + qR s.r2.z = 1 ∧ qR s.r3.x + qR s.r3.y + qR s.r3.z = 1) := by
+  have hall := prim_all fm p hp
+  have hk : primOk fm (if to709 then p else .BT709) (if to709 then .BT709 else p) = true := by cases to709; exact hall.2; exact hall.1
+  unfold primOk primOkT at hk
+  split at hk
+  · rename_i t s ht hs
+    simp only [Bool.and_eq_true] at hk
+    obtain ⟨⟨⟨⟨⟨⟨⟨⟨r1, r2⟩, r3⟩, s1⟩, s2⟩, s3⟩, a1⟩, a2⟩, a3⟩ := hk
+    unfold rowOkP at r1 r2 r3
+    simp only [Bool.and_eq_true] at r1 r2 r3
+    refine ⟨t, s, ht, hs, ?_, ?_⟩
+    · dsimp only
+      rw [mulArr_rows]
+      exact ⟨row_prim fm t.r1 s.r1 px r1.1.1 r1.1.2 r1.2 a1 hx hy hz, row_prim fm t.r2 s.r2 px r2.1.1 r2.1.2 r2.2 a2 hx hy hz,
+             row_prim fm t.r3 s.r3 px r3.1.1 r3.1.2 r3.2 a3 hx hy hz⟩
+    · exact ⟨rowSum_facts s.r1 (den_of_entry _ _ r1.1.1) (den_of_entry _ _ r1.1.2) (den_of_entry _ _ r1.2) s1,
+             rowSum_facts s.r2 (den_of_entry _ _ r2.1.1) (den_of_entry _ _ r2.1.2) (den_of_entry _ _ r2.2) s2,
+             rowSum_facts s.r3 (den_of_entry _ _ r3.1.1) (den_of_entry _ _ r3.1.2) (den_of_entry _ _ r3.2) s3⟩
+  · simp at hk
 
 end C06
